@@ -782,11 +782,11 @@ fn racing() -> BoxedStrategy<Racing> {
 }
 
 pub fn run(ctx: &Ctx, rep: &Report) {
-    run_prop(ctx, rep, "broadcast-reentrant", ctx.tier.pick(20_000, 300_000), &|| reentrant(), &check_reentrant);
-    run_prop(ctx, rep, "broadcast-racing", ctx.tier.pick(3_000, 60_000), &|| racing(), &check_racing);
+    run_prop(ctx, rep, "broadcast-reentrant", ctx.tier.pick(20_000, 1_000_000), &|| reentrant(), &check_reentrant);
+    run_prop(ctx, rep, "broadcast-racing", ctx.tier.pick(3_000, 150_000), &|| racing(), &check_racing);
     run_exhaustive(ctx, rep, ctx.tier.pick(5, 6));
-    run_prop(ctx, rep, "random", ctx.tier.pick(20_000, 400_000), &|| hist_random(), &check_hist);
-    run_prop(ctx, rep, "concurrent", ctx.tier.pick(3_000, 60_000), &|| conc(), &check_conc);
+    run_prop(ctx, rep, "random", ctx.tier.pick(20_000, 2_000_000), &|| hist_random(), &check_hist);
+    run_prop(ctx, rep, "concurrent", ctx.tier.pick(3_000, 200_000), &|| conc(), &check_conc);
 }
 
 pub fn replay(sub: &str, case: &Value) -> Result<(), Fail> {
